@@ -2,6 +2,7 @@ import NixModel.Index
 import NixModel.NDArray
 import NixModel.Spec.C01
 import NixModel.Dump
+import NixModel.Spec.C14
 namespace Nix.Drive
 
 /-- the axis a trace is currently talking about (index family) -/
@@ -30,9 +31,16 @@ structure StoreSt where
   order : List (String × List String) := []       -- container key "kind@parentId" ↦ ids in creation order (never shrinks)
   everSeen : List (String × String) := []         -- id ↦ "kind name created" as first observed
 
+/-- props family (C14): the property model and the history of calls the IMPLEMENTATION accepted (most recent first) -/
+structure PvSt where
+  model : PV.SecSt String String := {}
+  hist : List (C14.Ev String String) := []
+  opened : Bool := false
+
 structure DState where
   axis : AxisDesc := .none
   arr : Option ArrSt := none
   store : StoreSt := {}
+  pv : PvSt := {}
 
 end Nix.Drive
